@@ -212,6 +212,11 @@ def parseWire : P (Bool × List (Rec × List Nat × List Nat × List Nat × List
   pure (sm, recs, some msgs)
 
 def runLine (ts : List String) : Verdict :=
+  -- a panic inside a message builder is an observed output: no record may make the builders panic
+  match ts.dropWhile (· != "PANIC") with
+  | "PANIC" :: which :: _ =>
+    .viol s!"C14:panic the {which} message builder panicked on a record ({(ts.dropWhile (· != "data")).getD 1 "?"} samples)"
+  | _ =>
   match ts with
   | "wire" :: rest =>
     match P.run parseWire rest with
